@@ -102,6 +102,12 @@ type env struct {
 	posters  map[int]*poster
 	events   []string
 	pend     []pendEntry
+
+	// waterfall cases: consumer parked in a hold closure; the harness' own account of what it queued behind it
+	parked   bool
+	wFill    int  // filler closures queued
+	wChain   int  // chain closures queued (start / invokeCallback), the blocked starter included
+	wBlocked bool // one chain starter is blocked in Post on the full channel
 }
 
 var caseNo int
@@ -410,6 +416,11 @@ func (e *env) buildTasks(id int, specs []taskSpec) ([]waterfall.Task, waterfall.
 	for i := range specs {
 		i, sp := i, specs[i]
 		tasks[i] = func(cb waterfall.Callback, args ...interface{}) {
+			if cb == nil {
+				// the task was handed no usable callback: it cannot complete
+				e.event(fmt.Sprintf("t%d.%d%s!nilcb:", id, i, showArgs(args)))
+				return
+			}
 			e.event(fmt.Sprintf("t%d.%d%s", id, i, showArgs(args)))
 			var res []interface{}
 			if sp.append {
@@ -533,6 +544,35 @@ func exec(op string) string {
 		return "bad-op"
 	}
 	switch ws[0] {
+	case "park": // a helper goroutine posts a closure that parks the consumer until `unpark`
+		if e.parked || e.stopped {
+			return "bad-op"
+		}
+		e.parked = true
+		go e.s.Post(e.closure(-1, 0, 'h'))
+		synctest.Wait()
+		return e.takeEvents()
+	case "fill": // n filler closures behind the parked consumer (never beyond the capacity, never behind chain closures)
+		n := hx.KVInt(ws, "n")
+		if !e.parked || e.wChain > 0 || e.wFill+n > sche.QueueSize {
+			return "bad-op"
+		}
+		e.wFill += n
+		go func() {
+			for i := 0; i < n; i++ {
+				e.s.Post(func() {})
+			}
+		}()
+		synctest.Wait()
+		return fmt.Sprintf("fill=%d", len(e.s.GetChanTask()))
+	case "unpark":
+		if !e.parked {
+			return "bad-op"
+		}
+		e.parked, e.wFill, e.wChain, e.wBlocked = false, 0, 0, false
+		e.release()
+		synctest.Wait()
+		return e.takeEvents()
 	case "chain":
 		id := hx.KVInt(ws, "id")
 		tv, ok := hx.KV(ws, "tasks")
@@ -541,20 +581,56 @@ func exec(op string) string {
 			return "bad-op"
 		}
 		via, _ := hx.KV(ws, "via")
-		tasks, final := e.buildTasks(id, specs)
-		r := hx.Guard(func() string {
-			if via == "builder" {
-				b := waterfall.NewBuilder(e.s)
-				for _, t := range tasks {
-					b.Next(t)
-				}
-				b.Final(final).Do()
-			} else {
-				waterfall.Sche(e.s, tasks, final)
+		from, _ := hx.KV(ws, "from")
+		if e.parked {
+			// keep the scenario free of the documented self-post deadlock and of a second blocked sender
+			room := e.wFill+e.wChain < sche.QueueSize
+			if from == "cons" || e.wChain >= 4 || e.wBlocked || (!room && from != "go") {
+				return "bad-op"
 			}
-			return ""
-		})
+			e.wChain++
+			if !room {
+				e.wBlocked = true
+			}
+		}
+		tasks, final := e.buildTasks(id, specs)
+		start := func() string {
+			return hx.Guard(func() string {
+				if via == "builder" {
+					b := waterfall.NewBuilder(e.s)
+					for _, t := range tasks {
+						b.Next(t)
+					}
+					b.Final(final).Do()
+				} else {
+					waterfall.Sche(e.s, tasks, final)
+				}
+				return ""
+			})
+		}
+		r := ""
+		var mu sync.Mutex
+		switch from {
+		case "go": // a foreign goroutine starts the chain (it may block in Post on a full channel)
+			go func() {
+				x := start()
+				mu.Lock()
+				r = x
+				mu.Unlock()
+			}()
+		case "cons": // the chain is started from a closure running on the consumer itself
+			e.s.Post(func() {
+				x := start()
+				mu.Lock()
+				r = x
+				mu.Unlock()
+			})
+		default:
+			r = start()
+		}
 		synctest.Wait()
+		mu.Lock()
+		defer mu.Unlock()
 		if r != "" {
 			return r
 		}
@@ -571,8 +647,14 @@ func exec(op string) string {
 			pe = &e.pend[k]
 		}
 		e.mu.Unlock()
+		if e.parked && (via == "post" || e.wChain >= 4 || e.wBlocked || e.wFill+e.wChain >= sche.QueueSize) {
+			return "bad-op"
+		}
 		if pe == nil {
 			return "-"
+		}
+		if e.parked {
+			e.wChain++
 		}
 		call := func() { pe.cb(pe.err, pe.res...) }
 		r := hx.Guard(func() string {
@@ -597,6 +679,9 @@ func exec(op string) string {
 		}
 		return e.takeEvents()
 	case "wstop":
+		if e.parked {
+			return "bad-op"
+		}
 		r := e.stop()
 		synctest.Wait()
 		if r != "stop=ok" {
@@ -845,7 +930,35 @@ func (g *gen) wfCase() {
 		if R.Intn(3) == 0 {
 			via = "builder"
 		}
-		g.run(fmt.Sprintf("chain id=%d via=%s tasks=%s", c, via, strings.Join(specs, ",")))
+		from := []string{"main", "go", "go", "cons"}[R.Intn(4)]
+		parkedHere := false
+		if R.Intn(4) == 0 {
+			// the chain is started while the consumer is parked behind a queue of 0 / 3 / cap-1 / cap closures
+			parkedHere = true
+			from = []string{"go", "go", "go", "main"}[R.Intn(4)]
+			fill := []int{0, 3, sche.QueueSize - 1, sche.QueueSize, sche.QueueSize - 2}[R.Intn(5)]
+			h.Count(fmt.Sprintf("w.parked.fill.%d", fill))
+			g.run("park")
+			if fill > 0 {
+				g.run(fmt.Sprintf("fill n=%d", fill))
+			}
+		}
+		h.Count("w.from." + from)
+		obs := g.run(fmt.Sprintf("chain id=%d via=%s from=%s tasks=%s", c, via, from, strings.Join(specs, ",")))
+		if obs == "bad-op" {
+			h.Count("w.refused")
+		}
+		if parkedHere {
+			if R.Intn(2) == 0 {
+				// a second starter (blocks when the first one filled the last slot), or a late completion
+				if R.Intn(2) == 0 {
+					g.run(fmt.Sprintf("chain id=%d via=sche from=go tasks=%s", 100+c, g.taskSpec('s', false)))
+				} else {
+					g.fire(pending + 1)
+				}
+			}
+			g.run("unpark")
+		}
 		if R.Intn(3) == 0 {
 			g.fire(pending + 1)
 		}
@@ -903,6 +1016,29 @@ func (g *gen) sweep() {
 					}
 				}
 			}
+		}
+	}
+	// chains started from a foreign goroutine / the consumer / the test goroutine, with the consumer idle or parked
+	// behind 0 / 3 / cap-1 / cap queued closures (the starter then blocks in Post on the full channel)
+	for _, cons := range []string{"h", "r"} {
+		for _, fill := range []int{0, 3, sche.QueueSize - 1, sche.QueueSize} {
+			g.run("reset kind=w cons=" + cons)
+			g.run("chain id=1 via=sche from=go tasks=s0a1,l0a2,g0a3")
+			g.run("chain id=2 via=builder from=cons tasks=s0a1,s1a2")
+			g.run("park")
+			if fill > 0 {
+				g.run(fmt.Sprintf("fill n=%d", fill))
+			}
+			g.run("chain id=3 via=sche from=go tasks=s0a1,g0a2,l0a3")
+			g.run("chain id=4 via=sche from=go tasks=")
+			g.run("chain id=5 via=builder from=main tasks=t0a1,s0a2")
+			g.run("fire k=0 via=go")
+			g.run("unpark")
+			g.run("fire k=0 via=timer")
+			g.run("fire k=1 via=go")
+			g.run("chain id=6 via=sche from=cons tasks=l0a1")
+			g.run("fire k=2 via=main")
+			g.h.Count("w.sweep.parked")
 		}
 	}
 	// fill levels: exactly at / around the capacity, single and multiple posters, both consumers
